@@ -74,7 +74,11 @@ fn parse_cli(out: &str) -> Option<String> {
 }
 /// process level: `rust-number-theory <config>` with to_find = factorization (the list may end in zeros)
 fn do_cli(ctx: &mut Ctx, a: &[BigInt], expected: &str) {
-    let cfg = format!("to_find = ['factorization']\n[input]\npolynomials = [{}]\n", toml_list(a));
+    let mut v = variant_of(&[show_ints(a)]);
+    if a.is_empty() {
+        v = match v { 1 | 2 => 0, 5 => 3, x => x };
+    }
+    let cfg = format!("to_find = ['factorization']\n[input]\npolynomials = {}\n", toml_polys(&[a], v));
     if let Some(out) = run_cli(&cfg) {
         let ans = if out.starts_with("panic") { out } else { parse_cli(&out).unwrap_or_else(|| "noanswer".into()) };
         ctx.emit("cli.pz", &[show_ints(a), expected.to_string()], ans);
